@@ -40,7 +40,7 @@ Errors == {[id |-> "C11/err/unknown/" \o ToString(i) \o "/" \o ToString(p), text
           \cup {[id |-> "C11/err/escape/" \o ToString(i), text |-> "\"" \o t[i] \o "\""] : i \in 1..5, t \in {<<"\\q", "\\x4", "\\8", "\\'", "a\\">>}}
 
 \* positions across comments, multi-line tokens and mixed line ends
-PosTexts == <<"`x\r\ny` z", "x := `a\r\n\r\nb` + c\r\nd", "`\r\n`", "a `b\rc` d", "/* a\r\nb */ c", "a // c\r\nb `c\r\nd`\r\ne", "a /* c */ b", "a/* c */b /* d */ c", "/* x\ny */ a b", "a /* x\ny\nz */ b\nc", "`a\nb` c d", "x := `\n\n` y", "a // c\nb", "a\r\nb\r\n\tc", "\n\n  a", "a  \n", "\ta\t\tb", "a\n", "a", "", "\n", " ", "if a {\n\tb++\n}\n",
+PosTexts == <<"a /* c */ -1", "f(x) /* c */ -1", "a /* c */-1", "a // c\n-1", "1 /**/ -2", "s[0] /* */ -1", "\"s\" /* c */ -1", "true /* c */ -1", "a /* c */ - 1", "x = /* c */ -1", "a /* c */ /* d */ -1", "`x\r\ny` z", "x := `a\r\n\r\nb` + c\r\nd", "`\r\n`", "a `b\rc` d", "/* a\r\nb */ c", "a // c\r\nb `c\r\nd`\r\ne", "a /* c */ b", "a/* c */b /* d */ c", "/* x\ny */ a b", "a /* x\ny\nz */ b\nc", "`a\nb` c d", "x := `\n\n` y", "a // c\nb", "a\r\nb\r\n\tc", "\n\n  a", "a  \n", "\ta\t\tb", "a\n", "a", "", "\n", " ", "if a {\n\tb++\n}\n",
               "/* one */ a := 1 /* two */", "a /**/ b", "a /***/ b", "x /* * / */ y", "a //\nb", "a // c", "//", "/**/", "a //c\r\nb"," a-1", "a - 1", "a -1", "a- 1", "(a)-1", "f(-1)", "x = -1", "x[-1]", "a--1", "1-1", "\"s\"-1", "true-1", "nil-1",
               "a.b", "1.b", "a..b", "a:=b", "a: =b", "a<=b", "a< =b", "a&&b", "a||b", "a|b", "a!=b", "a! =b", "!a", "!!a", "a+++b", "a---b", "a+=-1", "a==-1", "a*-1">>
 Pos == {[id |-> "C11/pos/" \o ToString(i), text |-> PosTexts[i]] : i \in 1..Len(PosTexts)}
